@@ -148,6 +148,7 @@ CHECKS = {
             {"name": "TestC11Options", "enum": True},
             {"name": "TestC11Relative", "enum": True},
             {"name": "TestC11Later", "enum": True},
+            {"name": "TestC11Deep", "enum": True},
             K,
         ],
         "assumptions": ["only the hash-literal form of `with` is generated (the README documents no other)",
@@ -158,6 +159,7 @@ CHECKS = {
         "tests": [
             {"name": "TestC10Inheritance", "checks": [3000, 100000], "shards": [2, 16], "floor": 0.75},
             {"name": "TestC10Grid", "enum": True},
+            {"name": "TestC10Scale", "enum": True},
             {"name": "TestC10Flatten", "checks": [3000, 100000], "shards": [2, 16], "floor": 0.6},
             K,
         ],
